@@ -333,6 +333,10 @@ func (r *RolloutReconciler) handleNormalRolling(c *RolloutContext) error {
 	}
 	// in case user modifies it with inappropriate value
 	util.CheckNextBatchIndexWithCorrect(c.Rollout)
+	// the release manager reads (and the controller persists) NewStatus, so the correction has to land there too
+	if subStatus := c.NewStatus.GetSubStatus(); subStatus != nil && c.Rollout.Status.GetSubStatus() != nil {
+		subStatus.NextStepIndex = c.Rollout.Status.GetSubStatus().NextStepIndex
+	}
 
 	releaseManager, err := r.getReleaseManager(c.Rollout)
 	if err != nil {
